@@ -26,3 +26,7 @@ def run(check):
     check.run_rule('C11.R4', lambda c: rule_annotate(c, 'C11.R4'))
     from ..rules_classes import rule_no_rewrap_of_existing
     check.run_rule('C11.R4b', lambda c: rule_no_rewrap_of_existing(c, 'C11.R4'))
+    from ..rules_classes import rule_annotate_survives_discovery
+    check.run_rule('C11.R5', lambda c: rule_annotate_survives_discovery(c, 'C11.R5'))
+    from ..rules_classes import rule_concile_compares_denotation
+    check.run_rule('C11.R6', lambda c: rule_concile_compares_denotation(c, 'C11.R6'))
